@@ -1,7 +1,9 @@
 package main
 
 import (
+	"bufio"
 	"fmt"
+	"net"
 	"os"
 	"runtime"
 	"strings"
@@ -14,7 +16,7 @@ import (
 	"github.com/cnotch/ipchub/config"
 	"github.com/cnotch/ipchub/media"
 	"github.com/cnotch/ipchub/provider/route"
-	_ "github.com/cnotch/ipchub/service/rtsp" // registers the RTSP pull stream factory
+	"github.com/cnotch/ipchub/service/rtsp" // its init registers the RTSP pull stream factory
 	"github.com/cnotch/ipchub/stats"
 	"github.com/cnotch/ipchub/utils/verifhook"
 )
@@ -41,6 +43,7 @@ type scenario struct {
 	sdp     string   // SDP kind of the DESCRIBE body
 	play    []string // play events after a successful PLAY; the last one is terminal
 	keep    bool     // route.KeepAlive
+	rtsp    bool     // the requester is a real RTSP session (DESCRIBE over a net.Pipe) instead of a direct media.GetOrCreate call
 }
 
 func (s *scenario) line() string {
@@ -50,7 +53,7 @@ func (s *scenario) line() string {
 		}
 		return strings.Join(x, ",")
 	}
-	return fmt.Sprintf("user=%s listen=%s urlpath=%s keep=%s sdp=%s script=%s play=%s", B01(s.user), B01(s.listen), B01(s.urlPath), B01(s.keep), s.sdp, j(s.script), j(s.play))
+	return fmt.Sprintf("user=%s listen=%s urlpath=%s keep=%s rtsp=%s sdp=%s script=%s play=%s", B01(s.user), B01(s.listen), B01(s.urlPath), B01(s.keep), B01(s.rtsp), s.sdp, j(s.script), j(s.play))
 }
 
 func parseScenario(kv map[string]string) *scenario {
@@ -60,7 +63,7 @@ func parseScenario(kv map[string]string) *scenario {
 		}
 		return strings.Split(x, ",")
 	}
-	return &scenario{user: kv["user"] == "1", listen: kv["listen"] == "1", urlPath: kv["urlpath"] == "1", keep: kv["keep"] == "1", sdp: kv["sdp"], script: sp(kv["script"]), play: sp(kv["play"])}
+	return &scenario{user: kv["user"] == "1", listen: kv["listen"] == "1", urlPath: kv["urlpath"] == "1", keep: kv["keep"] == "1", rtsp: kv["rtsp"] == "1", sdp: kv["sdp"], script: sp(kv["script"]), play: sp(kv["play"])}
 }
 
 const sdpHead = "v=0\r\no=- 0 0 IN IP4 127.0.0.1\r\ns=cam\r\nc=IN IP4 127.0.0.1\r\nt=0 0\r\n"
@@ -177,6 +180,7 @@ func runScenario(s *scenario, path string) *observation {
 	type res struct {
 		s     *media.Stream
 		panic interface{}
+		code  string
 	}
 	done := make(chan res, 1)
 	go func() {
@@ -187,6 +191,10 @@ func runScenario(s *scenario, path string) *observation {
 			}
 			done <- r
 		}()
+		if s.rtsp {
+			r.s, r.code = describeViaRtsp(strings.ToUpper(path), path)
+			return
+		}
 		r.s = media.GetOrCreate(strings.ToUpper(path) + "/.") // a non-canonical spelling of the routed path
 	}()
 	var stream *media.Stream
@@ -200,6 +208,8 @@ func runScenario(s *scenario, path string) *observation {
 		case r.s != nil:
 			o.out = "stream"
 			stream = r.s
+		case s.rtsp && r.code != "404":
+			o.out = "status-" + r.code // a failed pull must be answered with 404 Not Found
 		default:
 			o.out = "nil"
 		}
@@ -329,6 +339,34 @@ func runScenario(s *scenario, path string) *observation {
 	return o
 }
 
+// describeViaRtsp: a real RTSP session of the server (rtsp.CreateAcceptHandler on a net.Pipe) receives
+// DESCRIBE for the routed path; returns the stream the session found (on 200) and the status code.
+func describeViaRtsp(reqPath, canon string) (*media.Stream, string) {
+	cli, srv := net.Pipe()
+	rtsp.CreateAcceptHandler()(srv)
+	defer cli.Close()
+	cli.SetDeadline(time.Now().Add(hangAfter + 2*time.Second))
+	go fmt.Fprintf(cli, "DESCRIBE rtsp://localhost%s RTSP/1.0\r\nCSeq: 1\r\nAccept: application/sdp\r\n\r\n", reqPath)
+	br := bufio.NewReader(cli)
+	line, err := br.ReadString('\n')
+	if err != nil {
+		return nil, "noanswer"
+	}
+	f := strings.Fields(line)
+	if len(f) < 2 {
+		return nil, "malformed"
+	}
+	if f[1] != "200" {
+		return nil, f[1]
+	}
+	var st *media.Stream
+	waitFor(settle, func() bool { st = media.Get(canon); return st != nil })
+	if st == nil {
+		return nil, "200-but-no-stream"
+	}
+	return st, "200"
+}
+
 func waitChNow(ch <-chan struct{}) bool {
 	select {
 	case <-ch:
@@ -336,6 +374,110 @@ func waitChNow(ch <-chan struct{}) bool {
 	default:
 		return false
 	}
+}
+
+// runDual: two simultaneous first requests for one routed path.  Both miss in Get (held together at
+// the getorcreate.miss point), both pull from the camera, both register; the registry must end with
+// one live stream, the other client must be told (stream closed) and release its connection, and
+// its Unregist must not remove the winner.
+func runDual(id int, pauseRegist bool) (obs string, notes []string) {
+	path := fmt.Sprintf("/c20/dual%d", id)
+	cam, err := newCamera(nil, "")
+	if err != nil {
+		Fatal("listen: %v", err)
+	}
+	defer cam.close()
+	cam.sdp = sdpBody("va", "rtsp://"+cam.addr()+"/live")
+	route.Save(&route.Route{Pattern: path, URL: "rtsp://" + cam.addr() + "/live", KeepAlive: true})
+	defer route.Del(path)
+	base := stats.RtspConns.GetSample().Active
+	var arrived int32
+	both := make(chan struct{})
+	var registArmed int32
+	if pauseRegist {
+		registArmed = 1
+	}
+	registPaused, registRelease := make(chan struct{}), make(chan struct{})
+	verifhook.Set(func(point string, _ uint32) {
+		switch point {
+		case "getorcreate.miss":
+			if atomic.AddInt32(&arrived, 1) == 2 {
+				close(both)
+			}
+			waitCh(both, 3*time.Second)
+		case "regist.loaded":
+			if atomic.CompareAndSwapInt32(&registArmed, 1, 0) {
+				close(registPaused)
+				waitCh(registRelease, 2*time.Second)
+			}
+		}
+	})
+	defer verifhook.Set(nil)
+	res := make([]*media.Stream, 2)
+	var wg sync.WaitGroup
+	for i := 0; i < 2; i++ {
+		wg.Add(1)
+		go func(i int) {
+			defer wg.Done()
+			defer func() { recover() }()
+			res[i] = media.GetOrCreate(path)
+		}(i)
+	}
+	wg.Wait()
+	if pauseRegist {
+		// the first Regist is held after its Load; give the second one the chance to run inside it
+		if waitCh(registPaused, 3*time.Second) {
+			time.Sleep(30 * time.Millisecond)
+		}
+		close(registRelease)
+	}
+	if res[0] == nil || res[1] == nil || res[0] == res[1] {
+		return "live=? registered=0 loserconn=0 winnerkept=0 clean=0 leak=0 both=0", []string{"GetOrCreate did not return two distinct streams"}
+	}
+	var conns []*camConn
+	for len(conns) < 2 {
+		select {
+		case cc := <-cam.accepts:
+			conns = append(conns, cc)
+		case <-time.After(settle):
+			return "live=? registered=0 loserconn=0 winnerkept=0 clean=0 leak=0 both=0", []string{"fewer than two camera connections"}
+		}
+	}
+	// both Regist calls done: one of the two is the registered one and the other is not OK any more,
+	// or (the defect) both stay OK
+	waitFor(3*time.Second, func() bool {
+		w := media.Get(path)
+		return (w == res[0] && res[1].VerifStatus() != media.StreamOK) || (w == res[1] && res[0].VerifStatus() != media.StreamOK)
+	})
+	live := 0
+	for _, s := range res {
+		if s.VerifStatus() == media.StreamOK {
+			live++
+		}
+	}
+	winner := media.Get(path)
+	registered := winner == res[0] || winner == res[1]
+	// every camera connection gets a packet: the retired client's next packet must end its pull
+	for _, cc := range conns {
+		cc.write(rtpPacket(0, 1, 0))
+	}
+	loserConn := waitFor(settle/3, func() bool { return waitChNow(conns[0].peerGone) != waitChNow(conns[1].peerGone) || live != 1 })
+	loserConn = loserConn && live == 1 && (waitChNow(conns[0].peerGone) != waitChNow(conns[1].peerGone))
+	oneConn := waitFor(3*time.Second, func() bool { return stats.RtspConns.GetSample().Active == base+1 })
+	winnerKept := media.Get(path) == winner && winner != nil
+	// the end: the camera goes away
+	for _, cc := range conns {
+		cc.kill(false)
+	}
+	clean := waitFor(settle, func() bool {
+		_, still := media.VerifRegistry()[path]
+		n, _ := pullGoroutines()
+		return !still && stats.RtspConns.GetSample().Active == base && n == 0
+	})
+	if !oneConn {
+		notes = append(notes, "connection counter is not base+1 after the loser left")
+	}
+	return fmt.Sprintf("live=%d registered=%s loserconn=%s winnerkept=%s clean=%s leak=%s both=1", live, B01(registered), B01(loserConn), B01(winnerKept), B01(clean), B01(!oneConn)), notes
 }
 
 // pullGoroutines counts goroutines that are inside the pull client or a consumption loop
@@ -352,7 +494,6 @@ func pullGoroutines() (n int, sample string) {
 	}
 	return
 }
-
 
 // ---- generators ----
 
@@ -431,6 +572,7 @@ func genScenario(r *Rng) *scenario {
 		s.script = append([]string{"u-dg", "u-dg", "u-dg"}, s.script...)
 	}
 	s.play = genPlay(r)
+	s.rtsp = r.Chance(12)
 	return s
 }
 
@@ -467,6 +609,10 @@ func systematic() []*scenario {
 		}
 	}
 	out = append(out, &scenario{user: true, listen: false, urlPath: true, sdp: "va"})
+	out = append(out, &scenario{user: true, listen: false, urlPath: true, sdp: "va", rtsp: true})
+	for _, f := range []string{"ok", "s404", "eof", "rst", "sil", "mal", "u-no"} {
+		out = append(out, &scenario{user: true, listen: true, urlPath: true, sdp: "va", rtsp: true, script: []string{"u-dg", "ok", f}, play: []string{"p0", "p2", "eof"}})
+	}
 	// a DESCRIBE answer whose body ends early
 	out = append(out, &scenario{user: false, listen: true, urlPath: true, sdp: "va", script: []string{"ok", "eofb"}})
 	out = append(out, &scenario{user: true, listen: true, urlPath: true, sdp: "va", script: []string{"u-bg", "ok", "eofb"}})
@@ -546,11 +692,40 @@ func runC20(c *Ctx) {
 				leak = "1"
 			}
 		}
-		lines[i] = "c20 pull " + s.line() + " | " + obs[i].String() + " leak=" + leak
+		ob := obs[i].String()
+		if strings.HasPrefix(obs[i].out, "status-") { // judged here: a failed pull must be answered 404
+			ob = strings.Replace(ob, "out="+obs[i].out, "out=nil", 1)
+		}
+		lines[i] = "c20 pull " + s.line() + " | " + ob + " leak=" + leak
+	}
+	// simultaneous first requests (one at a time: they use the global verif hook)
+	nDual := c.Budget(6, 30)
+	dualObs := make([]string, nDual)
+	dualNotes := make([][]string, nDual)
+	for i := 0; i < nDual; i++ {
+		dualObs[i], dualNotes[i] = runDual(i, i%2 == 1)
+		lines = append(lines, "c20 dual")
 	}
 	outs := c.Drive(lines)
+	for i := 0; i < nDual; i++ {
+		m := KV(outs[len(scs)+i])
+		caseLine := fmt.Sprintf("c20 dual # run %d, first Regist paused=%v", i, i%2 == 1)
+		c.Eval(fmt.Sprintf("dual-%d", i%2), true)
+		c.Count("dual-" + dualObs[i])
+		k := KV(dualObs[i])
+		if got := fmt.Sprintf("live=%s;registered=%s", k["live"], k["registered"]); got != m["model"] {
+			c.Find(Finding{Kind: "corr", Class: "dual-first-requests", Case: caseLine, Impl: got, Model: m["model"], Detail: strings.Join(dualNotes[i], "; ")})
+		}
+		if dualObs[i] != "live=1 registered=1 loserconn=1 winnerkept=1 clean=1 leak=0 both=1" {
+			c.Find(Finding{Kind: "oracle", Class: "concurrent-first-requests-not-one-stream", Case: caseLine, Impl: dualObs[i], Spec: "live=1 registered=1 loserconn=1 winnerkept=1 clean=1 leak=0 both=1", Detail: strings.Join(dualNotes[i], "; ")})
+		}
+	}
 	for i, s := range scs {
 		o := obs[i]
+		if strings.HasPrefix(o.out, "status-") {
+			c.Find(Finding{Kind: "oracle", Class: "failed-pull-not-answered-404", Case: "c20 pull " + s.line(), Impl: o.String(), Spec: "RTSP 404 Not Found"})
+			o.out = "nil"
+		}
 		m := KV(outs[i])
 		caseLine := "c20 pull " + s.line()
 		c.Eval(caseLine, o.dialled && len(o.reqs) > 0)
